@@ -1118,25 +1118,30 @@ class C09(PropCheck):
 
 class C12(PropCheck):
     pid = "C12"
-    design_ref = "DESIGN.md section 3, C12"
-    technique = "generated Coq obligation (shared-state footprint of src/ is empty) + stateless state-machine theorems + history/thread differential run"
+    design_ref = "DESIGN.md Part I section I.1 and Part II section 3, C12"
+    technique = "generated Coq obligation (shared-state footprint of src/ is empty) + stateless state-machine theorems + history/thread/process differential run"
     level_text = ("tools/footprint.py scans src/ on every run and emits gen/Footprint.v; C12_no_shared_state proves the list of statics, "
                   "thread-locals, locks, cells, atomics and unsafe blocks empty by reflexivity (a cache added to the crate breaks this "
                   "obligation). Under it the API is the stateless machine of Purity.v, for which entry-point agreement, parse-once = "
                   "parse-each and independence from every history are theorems. Partial by nature: schedules are runtime behaviour; the "
-                  "S-hist stream runs 40 permuted/repeated histories per batch and 16 threads sharing each parsed query and document.")
+                  "S-hist stream runs, per batch and in a fresh process, 40 permuted/repeated histories and 16 threads sharing each parsed "
+                  "query and document, and every batch again with its operations reversed in another fresh process (per-operation digests "
+                  "must agree: what the first-ever use in a process caches is thereby exposed).")
     level_note = "partial: thread schedules and data races are sampled, not proved; Send + Sync of JpQuery is a compile-time assertion of the harness"
-    rule = ("batches of 12 (query string, document) operations: entry points compared position by position, 40 permuted and reversed "
-            "histories, prepared vs re-parsed queries, 16 threads x 60 iterations over shared Arc<JpQuery>/Arc<Value>, document snapshot; "
-            "non-trivial = a batch with at least one non-empty result; distinct = distinct batches")
-    n_quick = 120
-    n_thorough = 3000
+    rule = ("batches of 14 (query string, document) operations incl. match/search pairs over one pattern and names with escapes: entry points "
+            "compared position by position, 40 permuted and reversed histories, prepared vs re-parsed queries, 16 threads x 60 iterations over "
+            "shared Arc<JpQuery>/Arc<Value>, document snapshot; each batch twice in fresh processes (forward / reversed); "
+            "non-trivial = every batch; distinct = distinct batches")
+    n_quick = 60
+    n_thorough = 2000
     harness_features = "sendsync"
+    isolate_cases = True
 
     def cases(self):
         n = self.n_quick if self.tier == "quick" else self.n_thorough
-        g = gen.Gen(self.rng, gen.Profile(odd_names=True, regex=True, custom=True, max_segments=3, filter_depth=2))
+        g = gen.Gen(self.rng, gen.Profile(odd_names=True, hostile_names=True, regex=True, custom=True, max_segments=3, filter_depth=2))
         out = []
+        strs = ("a", S("abc"), S("b"), S("xyz"), S("bb"), S("ab"), ("i", 1))
         for b in range(n):
             ops = []
             shared_doc = g.doc()
@@ -1148,16 +1153,63 @@ class C12(PropCheck):
                 if self.rng.random() < 0.1:
                     text = gen.mutate(self.rng, text)      # invalid queries are part of a history too
                 ops.append((S(text), shared_doc if self.rng.random() < 0.4 else d))
-            out.append(Case("h%d" % b, "HIST", [("ops",) + tuple(ops), str(self.rng.randrange(1, 2**31))], {"batch": b}))
+            pat = self.rng.choice(["b", "a.", "ab|b", "[ab]+", "b*", "x", "a|b"])
+            ops.append((S("$[?match(@,'%s')]" % pat), strs))
+            ops.append((S("$[?search(@,'%s')]" % pat), strs))
+            self.rng.shuffle(ops)
+            seed = str(self.rng.randrange(1, 2**31))
+            out.append(Case("h%da" % b, "HIST", [("ops",) + tuple(ops), seed], {"batch": b, "order": "forward"}))
+            out.append(Case("h%db" % b, "HIST", [("ops",) + tuple(reversed(ops)), seed], {"batch": b, "order": "reversed"}))
+        # entry points on singular paths spelled with every kind of escape (and on random queries)
+        gh = gen.Gen(self.rng, gen.Profile(odd_names=True, hostile_names=True, max_depth=3))
+        k = 0
+        for _ in range(n * 4):
+            d = gh.doc()
+            locs_ = [l for l, _ in doc_locations(d) if l]
+            if not locs_:
+                continue
+            loc = self.rng.choice(locs_)
+            text = "$"
+            for kind, v in loc:
+                text += "[%d]" % v if kind == "i" else "[" + gen.fancy_name(self.rng, v) + "]"
+            out.append(Case("e%d" % k, "E2E", [S(text), d], {"entry": True, "query": text}))
+            k += 1
         return out
 
     def judge(self, c, ans):
         I = ans.get("I")
         if not I:
             return Verdict("violation", detail="no answer")
+        if c.meta.get("entry"):
+            if I[0] in ("ERR",):
+                return Verdict("ok")
+            if I[0] == "OK" and "entry=1" in I and "parsed_once=1" in I and "DOC_CHANGED" not in I:
+                return Verdict("ok", nontrivial=True, key=sx_key(c))
+            return Verdict("violation", detail="entry points disagree on %r: %r" % (c.meta["query"], I[2:] if len(I) > 2 else I), nontrivial=True, key=sx_key(c))
         if I[0] == "OK":
             return Verdict("ok", nontrivial=True, key=sx_key(c))
         return Verdict("violation", detail="history/schedule dependence: %r" % (I,), nontrivial=True, key=sx_key(c))
+
+    def post_checks(self, cases, res):
+        by = {}
+        for c in cases:
+            if "batch" not in c.meta:
+                continue
+            by.setdefault(c.meta["batch"], {})[c.meta["order"]] = c
+        out = []
+        for b, pair in by.items():
+            if "forward" not in pair or "reversed" not in pair:
+                continue
+            fa, ra = res.get(pair["forward"].id, {}).get("I"), res.get(pair["reversed"].id, {}).get("I")
+            if not fa or not ra or fa[0] != "OK" or ra[0] != "OK" or len(fa) < 3 or len(ra) < 3:
+                continue
+            df, dr = fa[2].split(","), ra[2].split(",")
+            if df != list(reversed(dr)):
+                k = next((i for i, (x, y) in enumerate(zip(df, reversed(dr))) if x != y), -1)
+                out.append((pair["forward"], res.get(pair["forward"].id, {}),
+                            Verdict("violation", nontrivial=True,
+                                    detail="operation %d of the batch returns %s when the batch runs forward and %s when it runs reversed in a fresh process: the result depends on the history" % (k, df[k] if k >= 0 else "?", list(reversed(dr))[k] if k >= 0 else "?"))))
+        return out
 
 
 class C15(EvalProp):
@@ -1176,7 +1228,7 @@ class C15(EvalProp):
     e2e_share = 0.0
 
     def profile(self):
-        return gen.Profile(odd_names=True, custom=True, regex=False, programmatic=True, big_ints=False)
+        return gen.Profile(odd_names=True, custom=True, regex=False, programmatic=True, big_ints=True)
 
     def make_case(self, cid, q, d, meta=None):
         return Case(cid, "EVAL", [q, d], dict(meta or {}), impl=("GEN", [q, d]))
